@@ -35,6 +35,7 @@ type Outcome struct {
 	NonTriv bool
 	Sample  any
 	Skipped string
+	Race    bool // the race detector reported something during this run
 }
 
 // RunFn executes one simulated run from a tape. keepLog asks for the full event log.
@@ -110,6 +111,7 @@ type Result struct {
 	WallS      float64        `json:"wall_s"`
 	Race       bool           `json:"race"`
 	Infra      string         `json:"infra_error,omitempty"`
+	RaceRuns   []uint64       `json:"race_runs"`
 }
 
 type ReplayRef struct {
@@ -282,6 +284,9 @@ func Drive(cfg *Config, fn RunFn) int {
 		}
 		for _, o := range out.Others {
 			res.Others[o.Prop+" "+o.Class]++
+		}
+		if out.Race {
+			res.RaceRuns = append(res.RaceRuns, run)
 		}
 		if out.Skipped != "" {
 			res.Skipped[out.Skipped]++
